@@ -409,6 +409,32 @@ CHECKS["C06"] = {
                    "sandbox with journal for aborts and native hangs",
 }
 
+CHECKS["C17"] = {
+    "engine": "c17",
+    "level": "exploration",
+    "lanes_quick": [("release", None)],
+    "lanes_thorough": [("release", None), ("chk", None)],
+    "timeout_quick": 1800,
+    "floors": {"expansions_compared": 20000, "definitions_accepted": 10000, "uses": 50000},
+    "rule": "transformers with 1-3 rules; patterns nested <= 3 with literals, _, numeric data, a custom ellipsis identifier (1 in 6), ellipsis depth 0-2, "
+            "fixed tails after an ellipsis, dotted and vector patterns; templates that reuse, drop, duplicate and nest pattern variables (under one "
+            "ellipsis, twice under one ellipsis, in two ellipsis uses, with a depth-0 variable under an ellipsis, nested and consecutive ellipses, "
+            "dotted and vector templates); one transformer in eight gets a deliberately invalid template (variable with too few ellipses, ellipsis "
+            "after a constant or after a non-ellipsis variable, too many ellipses). Templates are quoted, so evaluating a use returns the expansion "
+            "as data. Uses are generated from each rule's pattern (0-3 repetitions per ellipsis) and by mutation (dropped / added / replaced / "
+            "wrapped element). One evaluation = one transformer with its uses, in a sandboxed child. A transformer is non-trivial when at least one "
+            "expansion was compared with the reference; distinct = distinct definitions.",
+    "assumptions": TRUSTED_COMMON + [
+        "the reference (harness/src/synrules.rs, 350 lines) implements R7RS 4.3.2 matching and instantiation without hygiene; generated templates "
+        "insert only fresh symbols and data, so the renaming hygiene would add is not observable",
+        "an error from marwood (at definition or at use) is always accepted; a use is judged against the first rule the reference matches, and is "
+        "'invalid' only if that rule or a rule tried before it is invalid",
+        "uses whose ellipsis variables under one template ellipsis matched different numbers of items are excluded (pinned truncation)",
+        "a use that exceeds 2*10^6 VM instructions, or a child that dies or is silent for 10 s (reproduced twice at 30 s), counts as non-termination",
+    ],
+    "explanation": "value of (quote <expansion>) compared with the reference expansion; definition/use termination observed through the process sandbox",
+}
+
 # ---- texts for MANIFEST.json (tools/gen_manifest.py) ----
 MANIFEST_TEXT = {}
 NOT_APPLICABLE = {}
@@ -567,4 +593,13 @@ MANIFEST_TEXT["C06"] = {
                   "from global_symbols(), so new builtins are covered automatically.",
     "level_note": "Covers the argument kinds of the palette; values between the boundaries are not explored. Hangs are decided by instruction and wall-clock "
                   "budgets with confirmation re-runs.",
+}
+
+MANIFEST_TEXT["C17"] = {
+    "technique": "runtime monitoring: differential oracle (textbook syntax-rules matcher/instantiator) on generated transformers and uses with quoted templates, in sandboxed children observing non-termination",
+    "design_ref": "DESIGN.md 6 C17",
+    "level_text": "Tens of thousands of generated transformers, each with matching and non-matching uses, are expanded by the real expander and by the "
+                  "reference; a returned expansion must be the prescribed one, and definition and use must terminate. Feature classes that mis-expand on "
+                  "the pinned tree are listed as open findings by (feature of the matched rule, kind of wrong behaviour).",
+    "level_note": "Trusts the reference implementation and the process sandbox. Hygiene is outside the generated grammar.",
 }
